@@ -11,14 +11,14 @@ LEVEL = "model_checking"
 PID = "C16"
 
 
-def write_mc(workdir, name, part, instances=(), cov_masked=False, keyed=True, maxlen=3, invariants=(), set_clears="all", fant_live=False):
+def write_mc(workdir, name, part, instances=(), cov_masked=False, keyed=True, maxlen=3, invariants=(), set_clears="all", fant_live=False, layout_test="event"):
     os.makedirs(workdir, exist_ok=True)
     mod = "MC_NanPolicy_" + name
     with open(os.path.join(workdir, mod + ".tla"), "w") as f:
         f.write("---- MODULE %s ----\nEXTENDS NanPolicy\nInstDef == {%s}\n====\n" % (mod, ",\n  ".join(tla(i) for i in instances)))
     cfg = os.path.join(workdir, mod + ".cfg")
     tlc.write_cfg(cfg, spec="Spec", constants={"Part": part, "Instances": "<- InstDef", "CovMasked": cov_masked, "KeyedByPolicy": keyed, "MaxLen": maxlen,
-                                               "SetTargetsClears": set_clears, "FantasyCacheLive": fant_live},
+                                               "SetTargetsClears": set_clears, "FantasyCacheLive": fant_live, "LayoutTest": layout_test},
                   invariants=list(invariants))
     return os.path.join(workdir, mod + ".tla"), cfg
 
@@ -47,7 +47,8 @@ def _worker(item):
     import gpytorch
     out = []
     for c in item["cases"]:
-        out.extend(run_data_history(torch, gpytorch, c) if c.get("kind") == "datahist" else run_case(torch, gpytorch, c))
+        out.extend(run_data_history(torch, gpytorch, c) if c.get("kind") == "datahist" else
+                   run_layout_case(torch, gpytorch, c) if c.get("kind") == "layout" else run_case(torch, gpytorch, c))
     return out
 
 
@@ -313,6 +314,63 @@ def run_data_history(torch, gpytorch, c):
     return results
 
 
+def run_layout_case(torch, gpytorch, c):
+    """part layout of NanPolicy.tla on the real likelihood: a multitask function distribution built by hand in the given covariance
+    layout (interleaved / task by task) with the given batch rank; the likelihood terms under mask and fill must equal the sum of the
+    elementwise terms over the observed (point, task) cells, each computed by hand from the cell's own mean, variance and noise."""
+    import math
+    from gpytorch import settings
+    N, T = c["N"], c["T"]
+    il, rank = c["il"], c["rank"]
+    bshape = ((), (2,), (2, 2))[rank]
+    g = torch.Generator().manual_seed(c["seed"])
+    mean = torch.randn(*bshape, N, T, generator=g, dtype=torch.float64)
+    A = torch.randn(*bshape, N * T, N * T, generator=g, dtype=torch.float64)
+    cov = A @ A.mT / (N * T) + 0.5 * torch.eye(N * T, dtype=torch.float64)
+    # the cell held at flat covariance position k, by the documented layouts
+    cell_of = [((k // T), (k % T)) if il else ((k % N), (k // N)) for k in range(N * T)]
+    var = torch.empty(*bshape, N, T, dtype=torch.float64)
+    dg = cov.diagonal(dim1=-1, dim2=-2)
+    for k, (i, t) in enumerate(cell_of):
+        var[..., i, t] = dg[..., k]
+    fdist = gpytorch.distributions.MultitaskMultivariateNormal(mean, cov, interleaved=il)
+    lik = gpytorch.likelihoods.MultitaskGaussianLikelihood(num_tasks=T).to(torch.float64)
+    with torch.no_grad():
+        lik.task_noises = torch.tensor([0.1 + 0.27 * t for t in range(T)], dtype=torch.float64)
+        lik.noise = 0.05
+    lik.eval()
+    noise = (lik.task_noises + lik.noise).detach().reshape(*([1] * len(bshape)), 1, T).expand(*bshape, N, T)
+    yfull = torch.randn(*bshape, N, T, generator=g, dtype=torch.float64)
+    obs = torch.zeros(N, T, dtype=torch.bool)
+    for (i, t) in c["obs"]:
+        obs[i - 1, t - 1] = True
+    y = yfull.clone()
+    y[..., ~obs] = float("nan")
+    desc = "layout %s batch-rank %d observed cells %s" % ("interleaved" if il else "task-major", rank, sorted(map(tuple, c["obs"])))
+    results = []
+    elem = dict(expected_log_prob=-0.5 * (((yfull - mean).square() + var) / noise + noise.log() + math.log(2 * math.pi)),
+                log_marginal=-0.5 * ((yfull - mean).square() / (var + noise) + (var + noise).log() + math.log(2 * math.pi)))
+    for pol in ("mask", "fill"):
+        with torch.no_grad(), settings.observation_nan_policy(pol):
+            ok, v = core.guarded(lambda: dict(expected_log_prob=lik.expected_log_prob(y, fdist).clone(), log_marginal=lik.log_marginal(y, fdist).clone()))
+        for nm in ("expected_log_prob", "log_marginal"):
+            sig = "C16/layout/%s/rank%d/%s/%s" % ("interleaved" if il else "task-major", rank, pol, nm)
+            key = ["layout", il, rank, c["obs"], pol, nm]
+            if not ok:
+                results.append(dict(key=key, ok=False, nontrivial=True, sig=sig + "/raises", detail=desc + ": %s raises under %s: %s" % (nm, pol, v), case=c))
+                continue
+            want = (elem[nm] * obs).reshape(*bshape, -1).sum(-1)
+            got = v[nm]
+            if torch.isnan(got).any():
+                results.append(dict(key=key, ok=False, nontrivial=True, sig=sig + "/nan", detail=desc + ": NaN in %s under %s" % (nm, pol), case=c))
+                continue
+            gsum = got.reshape(*bshape, -1).sum(-1) if bshape else got.sum()
+            good, why = core.close(gsum, want, 1e-10, 1e-12)
+            results.append(dict(key=key, ok=good, nontrivial=True, sig=sig, case=c,
+                                detail=desc + ": sum of the %s terms under %s differs from the sum of the observed cells' own terms: %s" % (nm, pol, why)))
+    return results
+
+
 def full_e_elem(torch, lik, y, fdist, nm):
     """elementwise (point x task) terms of the multitask Gaussian likelihood from its own noise diagonal"""
     import math
@@ -353,7 +411,20 @@ def run(ck):
     jobs.append(((mod, cfg), dict(name=PID + "/datahist_active", check=False, workers=2)))
     mod, cfg = write_mc(wd, "datahist_live", "datahist", maxlen=3, invariants=["ServedCurrent"], fant_live=True)
     jobs.append(((mod, cfg), dict(name=PID + "/datahist_live", check=False, workers=2)))
+    mod, cfg = write_mc(wd, "layout", "layout", invariants=["LayoutPaired"])
+    jobs.append(((mod, cfg), dict(name=PID + "/layout", check=False, workers=2, dump=True)))
+    mod, cfg = write_mc(wd, "layout_meanrank", "layout", invariants=["LayoutPaired"], layout_test="meanrank")
+    jobs.append(((mod, cfg), dict(name=PID + "/layout_meanrank", check=False, workers=2)))
     rs = tlc.run_many(jobs, parallel=4)
+    lay, lay_broken = rs[7], rs[8]
+    ck.add_tlc(lay, "layout (covariance order of a multitask distribution x batch rank under mask)")
+    ck.add_tlc(lay_broken, "task-major distribution recognised by the rank of its mean (must be rejected)")
+    if lay.violation:
+        ck.model_drift("NanPolicy.tla part layout violates %s: %s" % (lay.violation["name"], str(lay.violation["trace"][:1])[:300]))
+    elif lay.rc != 0:
+        raise tlc.TLCError("TLC failed on NanPolicy layout:\n%s" % lay.stdout[-1500:])
+    if not lay_broken.violation:
+        ck.vacuous("the layout model that recognises a task-major distribution by the rank of its mean is accepted by TLC")
     rs, dh, dh_active, dh_live = rs[:4], rs[4], rs[5], rs[6]
     for lab, r in zip(("datahist (targets replaced / fantasies between predictions)", "set_train_data clears only the active policy's entry (must be rejected)",
                        "NaN-unaware fantasy mean cache found by later predictions (must be rejected)"), (dh, dh_active, dh_live)):
@@ -421,6 +492,14 @@ def run(ck):
                 pat[b * nn] = False
         for seq in seqs[:: (1 if thorough else 3)]:
             cases.append(dict(kind="batch2", n=nn, missing=pat, policies=list(seq), seed=ck.seed * 100 + 120 + k))
+    lays = 0
+    for st in lay.states():
+        q = st["c"]
+        cases.append(dict(kind="layout", N=2, T=3, il=bool(q["il"]), rank=int(q["rank"]), obs=sorted([int(e[0]), int(e[1])] for e in q["obs"]), seed=ck.seed * 100 + 700 + lays))
+        lays += 1
+    if not lays:
+        ck.vacuous("no layout cases generated")
+    ck.section("layout", cases=lays)
     # data histories: maximal TLC histories that contain a SetTargets or a Fantasy; NaN patterns of the new targets rotate
     dhs = set()
     for st in dh.states():
@@ -458,7 +537,7 @@ def run(ck):
 def replay(rep):
     torch = core.setup_torch()
     import gpytorch
-    fn = run_data_history if rep["case"].get("kind") == "datahist" else run_case
+    fn = run_data_history if rep["case"].get("kind") == "datahist" else (run_layout_case if rep["case"].get("kind") == "layout" else run_case)
     bad = [r for r in fn(torch, gpytorch, dict(rep["case"])) if not r["ok"]]
     for r in bad:
         print("VIOLATION property=C16 replay=- :: %s :: %s" % (r["sig"], r["detail"]))
